@@ -13,7 +13,7 @@ import (
 func init() {
 	register(&Spec{ID: "C15", Title: "The packet queue behaves as a byte FIFO across packet boundaries", Run: runC15,
 		Meta: core.Meta{
-			Explanation: "Clauses of the FIFO property whose truth is in the shape of the code; the step-by-step equality with a flat byte model is not decided. R15.1 (io.Reader / io.Writer clause): in every method of the module with the io.Reader signature the caller's slice is written (operand of copy, of an element store, or handed to a callee that does); PacketQueue.Write hands its slice to WriteBytes. R15.2 (typed read/write sibling table): UintK = Bytes(K/8) + endian.UintK, WriteUintK = make([]byte, K/8) + endian.PutUintK + WriteBytes, IntK/WriteIntK delegate to the unsigned sibling of the same width through a conversion, Byte/WriteByte use one byte, String/WriteString delegate to Bytes/WriteBytes; the package-level `endian` is assigned nowhere after its initialiser. R15.3: Bytes returns only nil/ErrNotEnoughBytes and succeeds only when n bytes were copied (C07 R07.2). R15.4: Reset assigns all four state fields. R15.5: AllPacketsConsumed's answer always depends on the packet index having reached the end of the queue: every non-false answer is a comparison of indexPacket with len(queue), or is computed under such a comparison. R15.6: the live packet size (packetSize()) only sizes NEW packets; free space in the packet being filled is computed from that packet's own header length/body (a size change while a packet is partly filled must not change its capacity).",
+			Explanation: "Clauses of the FIFO property whose truth is in the shape of the code; the step-by-step equality with a flat byte model is not decided. R15.1 (io.Reader / io.Writer clause): in every method of the module with the io.Reader signature the caller's slice is written (operand of copy, of an element store, or handed to a callee that does); PacketQueue.Write hands its slice to WriteBytes. R15.2 (typed read/write sibling table): UintK = Bytes(K/8) + endian.UintK, WriteUintK = make([]byte, K/8) + endian.PutUintK + WriteBytes, IntK/WriteIntK delegate to the unsigned sibling of the same width through a conversion, Byte/WriteByte use one byte, String/WriteString delegate to Bytes/WriteBytes; the package-level `endian` is assigned nowhere after its initialiser. R15.3: Bytes returns only nil/ErrNotEnoughBytes and succeeds only when n bytes were copied (C07 R07.2). R15.4: Reset assigns all four state fields. R15.5: AllPacketsConsumed's answer always depends on the packet index having reached the end of the queue: every non-false answer is a comparison of indexPacket with len(queue), or is computed under such a comparison. R15.6: the live packet size (packetSize()) only sizes NEW packets; free space in the packet being filled is computed from that packet's own header length/body (a size change while a packet is partly filled must not change its capacity). R15.7: DiscardUntilCurrentPosition evaluates its end-of-packet test after the queue was shifted and indexPacket reset, on queue[indexPacket] (the packet under the position). R15.8: AddPacket changes nothing but recvEOM and queue = append(queue, packet). R15.9 = R02.6 (read results are fresh buffers).",
 			NotDecided:  "Copy arithmetic across packets, discard, fill order and position save/restore semantics are not decided.",
 			Assumptions: []string{"encoding/binary ByteOrder semantics"},
 		}})
@@ -27,6 +27,9 @@ func runC15(r *core.Run) {
 	r.Rule("R15.3", "Bytes: nil/ErrNotEnoughBytes only; success only with n bytes", 3, false)
 	r.Rule("R15.4", "Reset restores the whole state", 1, false)
 	r.Rule("R15.5", "AllPacketsConsumed depends on the packet index reaching the end of the queue", 1, false)
+	r.Rule("R15.7", "DiscardUntilCurrentPosition drops the packet under the position only, after the shift", 1, false)
+	r.Rule("R15.8", "AddPacket only appends: it neither moves the position nor drops queued packets", 1, false)
+	r.Rule("R15.9", "read results do not alias queue storage", 1, false)
 	r.Rule("R15.6", "the live packet size only sizes new packets", 2, true)
 
 	// R15.1: every module method with signature Read([]byte) (int, error)
@@ -61,6 +64,10 @@ func runC15(r *core.Run) {
 	c15Reset(r)
 	c15Consumed(r)
 	c15PacketSize(r)
+	c15Discard(r)
+	c15AddPacket(r)
+	okF, whyF := bytesReturnsFresh(p)
+	r.Check(okF, "R15.9", "PacketQueue.Bytes returns a buffer of its own", p.Func("tds", "PacketQueue", "Bytes").Pos(), "make([]byte, n) allocated by the call", whyF)
 }
 
 // sliceWritten: the slice value is written through in this function.
@@ -374,4 +381,130 @@ func c15PacketSize(r *core.Run) {
 			r.Check(good, "R15.6", key, cc.Pos(), "only passed to NewPacket", "the live packet size is used for something other than sizing a new packet (e.g. the free space of the packet being filled): when the size changes while a packet is partly filled, writes are truncated or run past the packet's body")
 		}
 	}
+}
+
+// c15Discard: the end-of-packet test in DiscardUntilCurrentPosition looks at
+// the packet under the (reset) position, i.e. it is evaluated after the
+// queue was shifted by indexPacket and indexPacket was set to 0, and it
+// indexes the queue with indexPacket.
+func c15Discard(r *core.Run) {
+	p := r.Prog
+	fn := p.Func("tds", "PacketQueue", "DiscardUntilCurrentPosition")
+	fQueue := p.Field("tds", "PacketQueue", "queue")
+	fIdxP := p.Field("tds", "PacketQueue", "indexPacket")
+	fIdxD := p.Field("tds", "PacketQueue", "indexData")
+	var shift, zero *ssa.Store
+	for _, b := range fn.Blocks {
+		for _, in := range b.Instrs {
+			st, ok := in.(*ssa.Store)
+			if !ok {
+				continue
+			}
+			fa, ok := st.Addr.(*ssa.FieldAddr)
+			if !ok {
+				continue
+			}
+			if core.FieldOfAddr(fa) == fQueue {
+				if sl, isSl := st.Val.(*ssa.Slice); isSl && sl.Low != nil {
+					if f, _ := core.FieldLoad(sl.Low); f == fIdxP && shift == nil {
+						shift = st
+					}
+				}
+			}
+			if core.FieldOfAddr(fa) == fIdxP {
+				if c, isC := core.ConstInt64(st.Val); isC && c == 0 {
+					zero = st
+				}
+			}
+		}
+	}
+	key := "DiscardUntilCurrentPosition: end-of-packet test after the shift, on the packet under the position"
+	if shift == nil || zero == nil {
+		r.Bad("R15.7", key, fn.Pos(), "the queue is not shifted by indexPacket with indexPacket reset to 0")
+		return
+	}
+	// the comparison indexData >= len(queue[k].Data)
+	ok, why := false, "no end-of-packet test found"
+	for _, b := range fn.Blocks {
+		iff, isIf := b.Instrs[len(b.Instrs)-1].(*ssa.If)
+		if !isIf {
+			continue
+		}
+		bo, isB := iff.Cond.(*ssa.BinOp)
+		if !isB {
+			continue
+		}
+		if f, _ := core.FieldLoad(bo.X); f != fIdxD {
+			continue
+		}
+		x, isLen := isLenCall(bo.Y)
+		if !isLen {
+			continue
+		}
+		// x = queue[k].Data
+		var idx ssa.Value
+		if u, isU := x.(*ssa.UnOp); isU {
+			if fa, isFA := u.X.(*ssa.FieldAddr); isFA {
+				if u2, isU2 := fa.X.(*ssa.UnOp); isU2 {
+					if ia, isIA := u2.X.(*ssa.IndexAddr); isIA {
+						idx = ia.Index
+					}
+				}
+			}
+		}
+		if idx == nil {
+			continue
+		}
+		fi, _ := core.FieldLoad(idx)
+		switch {
+		case !core.Dominates(shift, iff) || !core.Dominates(zero, iff):
+			ok, why = false, "the end-of-packet test is evaluated before the queue is shifted: it looks at the oldest packet instead of the packet under the position, so that packet can be dropped with unread bytes"
+		case fi != fIdxP:
+			ok, why = false, "the end-of-packet test does not index the queue with indexPacket"
+		default:
+			ok = true
+		}
+	}
+	r.Check(ok, "R15.7", key, fn.Pos(), "shift, indexPacket = 0, then indexData >= len(queue[indexPacket].Data)", why)
+}
+
+// c15AddPacket: the only field AddPacket may change besides recvEOM is the
+// queue, and only by appending the new packet.
+func c15AddPacket(r *core.Run) {
+	p := r.Prog
+	fn := p.Func("tds", "PacketQueue", "AddPacket")
+	fQueue := p.Field("tds", "PacketQueue", "queue")
+	fEOM := p.Field("tds", "PacketQueue", "recvEOM")
+	ok, why := true, ""
+	for _, b := range fn.Blocks {
+		for _, in := range b.Instrs {
+			st, isSt := in.(*ssa.Store)
+			if !isSt {
+				continue
+			}
+			fa, isFA := st.Addr.(*ssa.FieldAddr)
+			if !isFA || fa.X != ssa.Value(fn.Params[0]) {
+				continue
+			}
+			f := core.FieldOfAddr(fa)
+			switch f {
+			case fEOM:
+			case fQueue:
+				call, isC := st.Val.(*ssa.Call)
+				isAppend := false
+				if isC {
+					if bi, isB := call.Call.Value.(*ssa.Builtin); isB && bi.Name() == "append" {
+						f0, _ := core.FieldLoad(call.Call.Args[0])
+						isAppend = f0 == fQueue
+					}
+				}
+				if !isAppend {
+					ok, why = false, "AddPacket replaces the queue by something other than append(queue, packet): queued, possibly unread packets are dropped, and a saved position no longer restores them"
+				}
+			default:
+				ok, why = false, "AddPacket changes "+f.Name()+": adding a packet moves the read position, so a position saved before is no longer valid"
+			}
+		}
+	}
+	r.Check(ok, "R15.8", "AddPacket only appends", fn.Pos(), "stores: queue = append(queue, packet); recvEOM", why)
 }
